@@ -84,7 +84,7 @@ class Report:
         for v in listed:
             print("KNOWN-FINDING: property=%s %s [%s]" % (self.pid, known[v["key"]].get("what", v["what"]), v["key"]))
         stale = [k for k in known if k not in {v["key"] for v in self.violations}]
-        ev_dir = os.path.join(VERIF, "evidence")
+        ev_dir = os.environ.get("SA_EVIDENCE") or os.path.join(VERIF, "evidence")  # SA_EVIDENCE: self-tests on scratch trees must not overwrite the real evidence
         os.makedirs(ev_dir, exist_ok=True)
         replay = os.path.join(ev_dir, "%s.violations.json" % self.pid)
         for b in self.broken:
